@@ -7,6 +7,7 @@
   `true_max = min(T, 2·max_tau)`. The theorems below bound that window.
 -/
 import PySpikeVerif.Proofs.TauLaws
+import PySpikeVerif.Proofs.SyncScan
 
 namespace PySpike.C16
 open PySpike
@@ -43,6 +44,25 @@ theorem window_le_unbounded (k1 r1 k2 r2 : List Q) (ts te mt mrts : Q) :
 /-- unbounded means: `true_max` is the recording length -/
 theorem trueMax_zero (ts te : Q) : trueMax ts te 0 = te - ts := by
   unfold trueMax; simp
+
+/-- **profile level**: with `max_tau > 0`, two spikes that the definition counts as coincident are
+    strictly closer than `max_tau`; since the SPIKE-Sync profile, the order profile, the filter
+    indicator (Properties/C03, C04) ARE this definition for all valid trains, no spike `max_tau` or
+    more away from every spike of the other train is ever marked -/
+theorem coincident_implies_within_max_tau (s1 s2 : List Q) (ts te mt m a b : Q) (h : 0 < mt)
+    (hc : Coinc s1 s2 (trueMax ts te mt) m a b) : qabs (a - b) < mt :=
+  lt_of_lt_of_le hc (le_trans (getTau_le_half _ _ _ _ _ _ _ _) (trueMax_half_le ts te mt h))
+
+/-- enlarging max_tau never removes a coincidence (pairwise definition) -/
+theorem coincidence_monotone_in_max_tau (s1 s2 : List Q) (ts te mt1 mt2 m a b : Q) (h1 : 0 < mt1)
+    (h12 : mt1 ≤ mt2) (hc : Coinc s1 s2 (trueMax ts te mt1) m a b) :
+    Coinc s1 s2 (trueMax ts te mt2) m a b :=
+  lt_of_lt_of_le hc (getTau_mono_maxTau _ _ _ _ _ _ _ _ _ (trueMax_mono ts te mt1 mt2 h1 h12))
+
+/-- … and the unbounded setting (`None` / 0) has every coincidence of every max_tau -/
+theorem coincidence_unbounded (s1 s2 : List Q) (ts te mt m a b : Q)
+    (hc : Coinc s1 s2 (trueMax ts te mt) m a b) : Coinc s1 s2 (trueMax ts te 0) m a b :=
+  lt_of_lt_of_le hc (getTau_mono_maxTau _ _ _ _ _ _ _ _ _ (trueMax_le_unbounded ts te mt))
 
 /-! non-vacuity / regression witness: the input of finding F4
     (`[10,20,30]` vs `[13,23,33]` on `[0,40]`, `max_tau = 1`) has no coincidence in the model -/
